@@ -133,6 +133,36 @@ theorem C15_store_failure_keeps_controller (s : State) (h r root : Nat) (sg : Li
   refine ⟨?_, rfl⟩
   cases via <;> rfl
 
+/-- a commit-type message BELOW quorum is not a decided message: it takes the ordinary commit path
+    (`UponExistingInstanceMsg`), which never writes to the store and never moves the controller height — from ANY state,
+    valid or not; so it teaches nothing and cannot weaken any clause -/
+theorem C15_below_quorum_commit_is_not_decided (s : State) (h r root : Nat) (sg : List Nat) (ok : Bool)
+    (hlt : sg.length < s.q) :
+    (step s (.decided h r root sg ok false)).1.s = s.s ∧
+    (step s (.decided h r root sg ok false)).1.c.height = s.c.height ∧
+    learns s (.decided h r root sg ok false) = [] := by
+  have hp : (processMsg s.q s.c s.s h ⟨r, root, sg⟩ ok).2.1 = s.s ∧
+      (processMsg s.q s.c s.s h ⟨r, root, sg⟩ ok).1.height = s.c.height := by
+    rcases processMsg_cases s.q s.c s.s h ⟨r, root, sg⟩ ok with he | ⟨_, hq, _⟩ | ⟨_, _, he⟩
+    · rw [he]; exact ⟨rfl, rfl⟩
+    · have : sg.length < s.q := hlt
+      have : s.q ≤ sg.length := hq
+      omega
+    · rw [he]; exact ⟨rfl, (existingMsg_height _ _ _ _ _).1⟩
+  refine ⟨hp.1, hp.2, ?_⟩
+  unfold learns
+  have : ¬ s.q ≤ sg.length := by omega
+  simp [this]
+
+/-- non-vacuity: after a commit-quorum decision a fourth operator's single commit is filed (one more commit), a repeated
+    one is a duplicate, a two-signer one is rejected; the store is the same in all three cases -/
+example :
+    (step (run (init false 3) [.start 2, .commits 104 true]) (.decided 2 1 104 [4] true false)).2 = .ddup ∧
+    ((step (run (init false 3) [.start 2, .commits 104 true]) (.decided 2 1 104 [4] true false)).1.c.insts.map (·.commits.length)) = [4] ∧
+    (step (run (init false 3) [.start 2, .commits 104 true]) (.decided 2 1 104 [3] true false)).1 =
+      (run (init false 3) [.start 2, .commits 104 true]) ∧
+    (step (run (init false 3) [.start 2, .commits 104 true]) (.decided 2 1 104 [1, 2] true false)).2 = .derr := by decide
+
 /-! ## clause 2 — the highest decided instance survives a restart -/
 
 /-- a restart leaves the store untouched, and when a highest record exists the new process resumes with it:
@@ -157,7 +187,7 @@ theorem C15_highest_survives_restart (s : State) (f : Bool) :
   simp [newRunner]
 
 example : (run (init false 3) [.decided 5 1 110 [1, 2, 3] true false]).s.highest =
-    some ⟨⟨5, 1, true, false, [⟨1, 110, [1, 2, 3]⟩]⟩, ⟨1, 110, [1, 2, 3]⟩⟩ := by decide
+    some ⟨⟨5, 1, true, false, [⟨1, 110, [1, 2, 3]⟩], none⟩, ⟨1, 110, [1, 2, 3]⟩⟩ := by decide
 
 /-- … and it still refuses older or equal duties: once a height is stored as highest, NO later history — with any
     number of further restarts, in either mode — ever starts consensus at or below it (attester-style or two-phase) -/
@@ -236,8 +266,8 @@ theorem C15_commit_quorum_decision_is_stored (full : Bool) (q : Nat) (ops : List
     rw [hs]
     have hih : i.height = rh := find_some_height hf
     have hfind : find (commitsCtrl (run (init full q) ops) i root).insts rh =
-        some { i with decided := true, commits := singles (run (init full q) ops).q root } :=
-      find_replaceInst_same (i' := { i with decided := true, commits := singles (run (init full q) ops).q root }) hf hih
+        some (commitsInst (run (init full q) ops) i root) :=
+      find_replaceInst_same (i' := commitsInst (run (init full q) ops) i root) hf hih
     exact saveFound_stores hfind (by rw [commitsCtrl_height]; exact hge)
       (fun a ha => Nat.le_trans (inv.c.le a ha) hge)
 
